@@ -477,7 +477,16 @@ func (t *tokenizer) readExponent(w io.ByteWriter) (int, error) {
 		}
 	}
 
-	return t.readDigits(c, w)
+	// Unlike the coefficient, the exponent's digits take no '_' separators.
+	for isDigit(c) {
+		if err = w.WriteByte(byte(c)); err != nil {
+			return 0, err
+		}
+		if c, err = t.read(); err != nil {
+			return 0, err
+		}
+	}
+	return c, nil
 }
 
 func (t *tokenizer) readDigits(c int, w io.ByteWriter) (int, error) {
